@@ -15,3 +15,4 @@ def _lazy(mod, fn='run'):
 registry['C20'] = _lazy('c20')
 registry['C19'] = _lazy('c19')
 registry['C18'] = _lazy('c18')
+registry['C15'] = _lazy('c15')
